@@ -112,14 +112,17 @@ def body_eval(env):
             import z3 as _z3
             dl = [c for (f_, c) in core.CTX.domain if f_ != 'pow']
             dp = [c for (f_, c) in core.CTX.domain if f_ == 'pow']
-            env.holds(nm, core.SymBool(_z3.And(*dl)) if dl else True, key='nonfinite_correlation')
+            # the iterating Cheng-Todreas splits take logarithms of quantities built from square roots and powers of the
+            # iterate: their positivity is beyond the uninterpreted-function abstraction, so the claim is core only for the
+            # non-iterating flow splits
+            env.holds(nm, core.SymBool(_z3.And(*dl)) if dl else True, key='nonfinite_correlation', core=combo[0] not in ('CTD', 'UCTD'))
             # bases of powers are often differences of logarithms; the uninterpreted logarithm only knows sign and monotonicity,
             # so this half is best-effort: a reproduced counterexample is a violation, an unreproduced one is left open
             env.holds(nm2, core.SymBool(_z3.And(*dp)) if dp else True, key='nonfinite_correlation', core=False)
         else:
             vals = [np.ravel(np.asarray(r.coolant_int_params[k], dtype=float)) for k in ('ff', 'fs', 'eddy', 'swirl')]
             fin = bool(all(np.all(np.isfinite(v)) for v in vals))
-            env.holds(nm, fin, key='nonfinite_correlation')
+            env.holds(nm, fin, key='nonfinite_correlation', core=combo[0] not in ('CTD', 'UCTD'))
             env.holds(nm2, fin, key='nonfinite_correlation', core=False)
 
 
@@ -197,7 +200,7 @@ def instances(tier):
     combos = list(itertools.product(FS, FF, MIX))
     for c in combos:
         heavy = c[0] in ('CTD', 'UCTD')      # the transition flow split iterates: every iteration forks
-        depth = (6 if heavy else 10) if tier == 'quick' else (10 if heavy else 16)
+        depth = (6 if heavy else 10) if tier == 'quick' else (8 if heavy else 16)
         inst.append(dict(label='eval[fs=%s,ff=%s,mix=%s]' % c, body=body_eval, params={'combo': c, 'n_ring': 3},
                          max_paths=400, max_depth=depth, timeout_ms=15000))
     # other ring counts for the single-family combinations (the 120 combinations above use 3 rings)
@@ -205,7 +208,7 @@ def instances(tier):
         for n in ((2, 5) if tier == 'quick' else (2, 4, 5, 7, 9)):
             heavy = c[0] in ('CTD', 'UCTD')
             inst.append(dict(label='eval[fs=%s,ff=%s,mix=%s,rings=%d]' % (c + (n,)), body=body_eval, params={'combo': c, 'n_ring': n},
-                             max_paths=400, max_depth=(6 if heavy else 10) if tier == 'quick' else (10 if heavy else 16), timeout_ms=15000))
+                             max_paths=400, max_depth=(6 if heavy else 10) if tier == 'quick' else (8 if heavy else 16), timeout_ms=15000))
     for fs in ('CTD', 'UCTD'):
         for n in ((2, 3, 5) if tier == 'quick' else (2, 3, 4, 5, 7, 9, 12)):
             inst.append(dict(label='ct-gradient[fs=%s,rings=%d]' % (fs, n), body=body_gradient, params={'fs': fs, 'n_ring': n}, check_vacuity=False))
@@ -213,7 +216,7 @@ def instances(tier):
         for c in combos:
             if c[0] in ('CTD', 'UCTD') and c[1] in ('CTD', 'UCTD'):
                 inst.append(dict(label='eval-grid[fs=%s,ff=%s,mix=%s]' % c, body=body_eval, params={'combo': c, 'n_ring': 3, 'grid': True},
-                                 max_paths=400, max_depth=10, timeout_ms=15000))
+                                 max_paths=400, max_depth=8, timeout_ms=15000))
         for grid in (False, True):
             for lam in (None, 7.0):
                 inst.append(dict(label='ctd-iterate[grid=%s,lambda=%s]' % (grid, lam), body=body_iterate, params={'grid': grid, 'lam': lam},
@@ -232,7 +235,7 @@ def main():
                      'combination is a path.  No path may end in KeyError/IndexError/TypeError; mass conservation and signs are '
                      'SMT queries per path.  One lifted iteration of the CTD/UCTD transition flow split from an arbitrary iterate '
                      'conserves mass (symbolic geometry, Reynolds bounds and friction constants).'),
-        bounds={'combinations': 'all 5 x 6 x 4', 'rings': '3; 2 and 5 (quick) / 2..9 for six single-family combinations', 'Re': '(10, 1e6)', 'fork depth': '10 (quick) / 16 decisions per path (deeper transition iterations are cut)',
+        bounds={'combinations': 'all 5 x 6 x 4', 'rings': '3; 2 and 5 (quick) / 2..9 for six single-family combinations', 'Re': '(10, 1e6)', 'fork depth': '6 / 10 (quick), 8 / 16 (thorough) decisions per path for iterating / non-iterating flow splits (deeper transition iterations are cut)',
                 'geometry': 'one concrete bundle for the evaluability/mass claims; fully symbolic for the iteration step'},
         outside=['equality of the pressure gradients across subchannel types and the common-gradient = bundle friction factor '
                  'identity (need the power-law normal form of DESIGN 2.1, not built)', 'ring counts other than 3 for the mixed combinations (single-family combinations also run with 2 and 5 rings / 2..9)',
